@@ -37,13 +37,9 @@ func (interp *Interpreter) importSrc(rPath, importPath string, skipTest bool) (s
 		// As for the go tool, a vendored package is imported by its path below the vendor directory.
 		return "", fmt.Errorf("must be imported as %s", importPath[i+len("vendor/"):])
 	} else if dir, rPath, err = interp.goPkgDir(interp.context.GOPATH, interp.mainRoot(rPath), importPath); err != nil {
-		// Try again, assuming a root dir at the source location.
-		if rPath, err = interp.rootFromSourceLocation(); err != nil {
-			return "", err
-		}
-		if dir, rPath, err = interp.goPkgDir(interp.context.GOPATH, rPath, importPath); err != nil {
-			return "", err
-		}
+		// The vendor directories at the location of the main package apply to that package
+		// (see mainRoot) and to the packages below it only: there is nothing else to try.
+		return "", err
 	}
 
 	if interp.rdir[importPath] {
